@@ -184,9 +184,16 @@ def meta_equal_except_range(mon, pre, out, mech):
 
 def _eq(a, b):
     try:
-        return bool(a == b)
+        if bool(a == b):
+            return True
     except Exception:   # noqa
-        return repr(a) == repr(b)
+        pass
+    try:                               # NaN limits after a degenerate conversion compare equal to themselves
+        if a is not None and b is not None and np.array_equal(np.asarray(a, dtype=float), np.asarray(b, dtype=float), equal_nan=True):
+            return True
+    except Exception:   # noqa
+        pass
+    return repr(a) == repr(b)
 
 
 def input_unchanged(mon, pre, data, mech):
@@ -275,7 +282,8 @@ def oracle_to_rfi(mon, pre, data, channels, at_arg, ag_arg, r_arg, out):
             exp = at[1] * 10 ** (at[0] * x / float(r))
             law = ('log', float(at[0]), float(at[1]), float(r))
         got = outa[:, p]
-        ok = np.allclose(got, exp, rtol=1e-12, atol=0) if len(x) else True
+        with np.errstate(all='ignore'):
+            ok = np.allclose(got, exp, rtol=1e-12, atol=0, equal_nan=True) if len(x) else True
         mon.chk(ok, 'rfi:law', channel=int(p), law=law,
                 worst=None if ok else float(np.nanmax(np.abs(got - exp) / np.maximum(np.abs(exp), 1e-300))),
                 x0=float(x[0]) if len(x) else None, got0=float(got[0]) if len(x) else None,
@@ -285,8 +293,10 @@ def oracle_to_rfi(mon, pre, data, channels, at_arg, ag_arg, r_arg, out):
             r1 = out.range(p)
             if r0 is not None:
                 f = (lambda v: v / ag) if at[0] == 0 else (lambda v: at[1] * 10 ** (at[0] * v / float(r)))
-                ok = r1 is not None and np.allclose([float(r1[0]), float(r1[1])], [f(r0[0]), f(r0[1])], rtol=1e-12)
-                mon.chk(ok, 'rfi:range-law', channel=int(p), got=r1, want=[f(r0[0]), f(r0[1])])
+                with np.errstate(all='ignore'):
+                    want_r = [float(f(np.float64(r0[0]))), float(f(np.float64(r0[1])))]
+                    ok = r1 is not None and np.allclose([float(r1[0]), float(r1[1])], want_r, rtol=1e-12, equal_nan=True)
+                mon.chk(ok, 'rfi:range-law', channel=int(p), got=r1, want=want_r)
     others = [j for j in range(pre.shape[1]) if j not in pos]
     if others:
         ok = outa[:, others].tobytes() == pre.f64[:, others].tobytes()
@@ -695,11 +705,20 @@ def oracle_stat(mon, name, pre, data, channels, out):
     tol = stat_tol(pre.dtype)
     for col, got in zip(cols, vals):
         lst = col.tolist()
+        if any(v != v for v in lst):
+            # a NaN among the values: no definition gives a number (the mode, a counting statistic, is left out)
+            if name != 'mode':
+                mon.chk(got != got, 'stats:definition:' + name, stat=name, got=got, want='nan (a value is NaN)', dtype=str(pre.dtype))
+            continue
         if not all(math.isfinite(v) for v in lst):
-            mon.ctx.note('statistic of non-finite data (not judged)')
+            mon.ctx.note('statistic of data with infinite values (not judged)')
+            continue
+        if name in ('gmean', 'gstd', 'gcv') and min(lst) < 0:
+            # the logarithm of a negative value is undefined: a geometric statistic of such a column is not a number
+            mon.chk(got != got, 'stats:definition:' + name, stat=name, got=got, want='nan (a value is negative)', dtype=str(pre.dtype))
             continue
         if name in ('gmean', 'gstd', 'gcv') and min(lst) <= 0:
-            mon.ctx.note('geometric statistic of non-positive data (not judged)')
+            mon.ctx.note('geometric statistic of data with zeros (not judged)')
             continue
         scale = max(abs(v) for v in lst)
         try:
@@ -790,6 +809,16 @@ def oracle_fit_structure(mon, a0, b0, fl_rfi, fl_mef, out):
     mon.chk(np.array_equal(ym, -y, equal_nan=True), 'fit:std-crv-not-odd', **d)
     if params[0] > 0 and np.all(np.isfinite(y)):
         mon.chk(bool(np.all(np.diff(y) > 0)), 'fit:std-crv-not-increasing', **d)
+    # far below the beads (down to 1e-120 where e^b x^m is still a normal number): still positive and strictly increasing
+    # (a curve assembled as (model - autofluorescence) + autofluorescence loses everything below ulp(autofluorescence))
+    if params[0] > 0:
+        x2 = np.geomspace(1e-120, lo / 10, 40)
+        repres = params[0] * np.log(x2) + params[1] > -600
+        with np.errstate(all='ignore'):
+            y2 = np.asarray(std_crv(x2), dtype=float)
+        if np.count_nonzero(repres) >= 2:
+            mon.chk(bool(np.all(y2[repres] > 0)) and bool(np.all(np.diff(y2[repres]) > 0)), 'fit:std-crv-not-increasing',
+                    where='far below the beads', first=[float(v) for v in y2[repres][:4]], **d)
     with np.errstate(all='ignore'):
         bm = np.asarray(beads_model(x), dtype=float)
     fin = np.isfinite(bm) & np.isfinite(y)
